@@ -63,9 +63,10 @@ Record cb := mkCb {
   cb_slot : option cbres;    (* value written to the 1-buffered slot *)
   cb_ctx : option why;       (* caller's context ended (cancel / deadline) *)
   cb_cancelled : bool;       (* cbctx cancelled (caller ctx, Stop, or wait() after delivery) *)
-  cb_watch : wpc
+  cb_watch : wpc;
+  cb_ret : bool              (* Callback has already returned to its caller (send failure) *)
 }.
-#[export] Instance eta_cb : Settable _ := settable! mkCb <cb_op; cb_id; cb_slot; cb_ctx; cb_cancelled; cb_watch>.
+#[export] Instance eta_cb : Settable _ := settable! mkCb <cb_op; cb_id; cb_slot; cb_ctx; cb_cancelled; cb_watch; cb_ret>.
 
 Inductive op :=
 | OpStop (n : nat) | OpCancel (n : nat) (id : bytes)
@@ -93,6 +94,7 @@ Inductive obs :=
 Record state := mkState {
   c_K : nat; c_push : bool; c_builtin : bool; c_methods : list bytes; c_unblock : bool;
   ch_in : list feed;
+  send_fail : bool;          (* the transport currently fails every Send *)
   running : bool; stop_err : option stopcause; work_closed : bool;
   closes : nat; starts : nat;
   rd : rdpc; dp : dppc;
@@ -106,17 +108,18 @@ Record state := mkState {
   crash : option crashkind
 }.
 #[export] Instance eta_state : Settable _ :=
-  settable! mkState <c_K; c_push; c_builtin; c_methods; c_unblock; ch_in; running; stop_err; work_closed;
+  settable! mkState <c_K; c_push; c_builtin; c_methods; c_unblock; ch_in; send_fail; running; stop_err; work_closed;
                      closes; starts; rd; dp; inq; units; tasks; nbar; sem_free; sem_wait; used;
                      calls; call_id; cbs; wg; ops; waits; ended; crash>.
 
 Definition init (K : nat) (push builtin : bool) (methods : list bytes) (unblock : bool) : state :=
-  mkState K push builtin methods unblock [] false None false 0 0 RNone DNone [] [] [] 0 K [] [] [] 1 [] 0 [] 0 [] None.
+  mkState K push builtin methods unblock [] false false None false 0 0 RNone DNone [] [] [] 0 K [] [] [] 1 [] 0 [] 0 [] None.
 
 Inductive label :=
 (* environment *)
 | LStart
 | LFeed (f : feed)
+| LSendFault (b : bool)
 | LGate (params : bytes) (o : outcome)
 | LCallStop (n : nat) | LCallCancel (n : nat) (id : bytes)
 | LCallPush (n : nat) (wantid : bool) (method params : bytes)
@@ -367,7 +370,7 @@ Definition settle_fuel (s : state) : nat := 8 + 2 * length (units s) + length (c
 
 (** * critical sections *)
 Definition push_error (s : state) (code : Z) (msg : bytes) : state * list obs :=
-  (s, [OSend (running s) false [{| r_id := null_bytes; r_body := BErr code msg |}]]).
+  (s, [OSend (running s && negb (send_fail s)) false [{| r_id := null_bytes; r_body := BErr code msg |}]]).
 
 (* the watcher of callback c wakes when its context is cancelled *)
 Definition wake_watch (c : cb) : cb :=
@@ -385,7 +388,8 @@ Definition complete_cb (i : nat) (r : cbres) (s : state) : state * list obs :=
   | Some c =>
       (s <| cbs ::= upd_nth i (fun c => wake_watch (c <| cb_slot := Some r |>)) |>
          <| calls ::= assoc_del (cb_id c) |>,
-       [ORet (cb_op c) (match r with CRes raw => ACbRes raw | CErr code msg => ctx_res code msg end)])
+       if cb_ret c then []
+       else [ORet (cb_op c) (match r with CRes raw => ACbRes raw | CErr code msg => ctx_res code msg end)])
   | None => (s, [])
   end.
 
@@ -467,6 +471,7 @@ Definition step_raw (s : state) (l : label) : option (state * list obs) :=
                    <| wg := 2 |> <| rd := RIdle |> <| dp := DAtNext |> <| ch_in := [] |>, [])
       else None
   | LFeed f => Some (s <| ch_in ::= fun q => q ++ [f] |>, [])
+  | LSendFault b => Some (s <| send_fail := b |>, [])
   | LGate p o =>
       match find_idx (fun t => beq (t_params t) p && match t_st t with TRunning => true | _ => false end) 0 (tasks s) with
       | Some k => match nth_error (tasks s) k with
@@ -541,7 +546,7 @@ Definition step_raw (s : state) (l : label) : option (state * list obs) :=
               if negb (u_chok un)
               then Some (s1 <| crash := Some CrNilChannel |>, [OCrash CrNilChannel])
               else Some (set_unit u (fun x => x <| u_st := UFinished |>) s1 <| wg ::= pred |>,
-                         [OSend (running s1) (u_batch un) rs])
+                         [OSend (running s1 && negb (send_fail s1)) (u_batch un) rs])
           | _ => None
           end
       | None => None
@@ -565,14 +570,21 @@ Definition step_raw (s : state) (l : label) : option (state * list obs) :=
           if negb (running s1) then Some (s1, [ORet n AConnClosed])
           else if wantid then
             let id := dec_of_nat (call_id s1) in
+            let fl := send_fail s1 in
+            if fl then
+              (* the request could not be sent: the registration is released at once (F14) and the
+                 watcher, its context cancelled, runs to its scheduling point *)
+              Some (s1 <| call_id ::= S |> <| cbs ::= fun l => l ++ [mkCb n id None None true WParked true] |>,
+                    [OSendReq false id m p; ORet n ASendFailed])
+            else
             let c := match find (fun e => fst e =? n) (ended s1) with
-                     | Some (_, w) => mkCb n id None (Some w) true WParked
-                     | None => mkCb n id None None false WBlocked
+                     | Some (_, w) => mkCb n id None (Some w) true WParked false
+                     | None => mkCb n id None None false WBlocked false
                      end in
             Some (s1 <| call_id ::= S |> <| calls ::= fun l => (id, length (cbs s1)) :: assoc_del id l |>
                      <| cbs ::= fun l => l ++ [c] |>,
                   [OSendReq true id m p])
-          else Some (s1, [OSendReq true [] m p; ORet n AOk])
+          else Some (s1, [OSendReq (negb (send_fail s1)) [] m p; ORet n (if send_fail s1 then ASendFailed else AOk)])
       | _ => None
       end
   | LRelCbWatch i =>
